@@ -193,6 +193,12 @@ func verifyFuncMode(p *Program, fc *FuncContract, prop string, unroll int) (u *U
 		}
 		post.locals[fmt.Sprintf("$ret%d", i)] = val
 	}
+	// vacuity: an atreturn clause that applies to no return statement of the body states nothing
+	for i, c := range fc.AtReturn {
+		if !cx.atretApplied[i] {
+			unsupported("atreturn clause %s applies to no return statement (ordinal %d; without ordinal: returns whose last result is literally nil)", clauseName(c, i), c.Ordinal)
+		}
+	}
 	// vacuity: some return reachable
 	o = w.Oblige(x.oblName("cover:exit", ""), "cover", exit.pc, False)
 	o.Expect = "sat"
